@@ -17,7 +17,8 @@ navis.config.pbar_hide = True
 navis.set_loggers('ERROR')
 
 MODELLED = ['subset', 'reroot', 'cutd', 'cutp', 'remove', 'ds', 'classify']
-WATCHED = ['prune_twigs', 'prune_strahler', 'prune_depth', 'longest', 'heal', 'resample', 'insert', 'mul', 'add', 'copy', 'pickle',
+WATCHED = ['prune_twigs', 'prune_strahler', 'prune_depth', 'longest', 'heal', 'resample', 'insert',  # insert: also diffed against insertNodes
+           'mul', 'add', 'copy', 'pickle',
            'smooth', 'despike', 'stitch', 'fragments', 'rewire', 'reinit', 'cbf', 'drop_fluff']
 
 
@@ -243,6 +244,9 @@ def run_history(ctx, case):
             continue
         if y is None:
             y = x
+        if op['op'] == 'insert' and len(y.nodes):
+            model = ctx.ask('f.insert ' + ','.join(f'{p}:{c}' for p, c in op['where']) + f' | {pre_wire}')
+            ctx.corr(G.topo_neuron(y), model, f"step {step} insert_nodes: node table vs Lean insertNodes on the implementation's pre-state", case)
         if op['op'] in MODELLED and len(y.nodes):
             mop = dict(op, pres=list(op['pres']) + pre_soma) if op['op'] == 'ds' else op
             model = ctx.ask(f"f.ops {op_wire(mop)} | {pre_wire}")
